@@ -323,6 +323,15 @@ theorem autoindentPrefix_marker (w : Str) (c : Char) : autoindentPrefix (w ++ ['
 theorem endsStar_marker (w : Str) (c : Char) : endsStar (w ++ ['{', c, '*']) = true := by
   simp [endsStar]
 
+theorem endsWith3_marker (w : Str) (a b c : Char) : endsWith3 a b c (w ++ [a, b, c]) = true := by
+  simp [endsWith3]
+
+theorem markerTest_variable (w : Str) : markerTest true (w ++ ['{', '{', '*']) = true := by
+  simp [markerTest, isVariableMarker, endsWith3_marker]
+
+theorem markerTest_block (w : Str) : markerTest false (w ++ ['{', '%', '*']) = true := by
+  simp [markerTest, isBlockMarker, endsWith3_marker]
+
 theorem renderNodes_singleton (V : Val) (n : Node) : renderNodes V [n] = renderNode V n := by
   simp [renderNodes]
 
@@ -338,12 +347,12 @@ theorem consItem_some {i : Item} {o : Option (List Item)} {items : List Item} (h
   | none => simp [consItem] at h
   | some rest => simp only [consItem, Option.some.injEq] at h; exact ⟨rest, rfl, h.symm⟩
 
-theorem mkTag_noStar (v : Str) (texts : List Str) (h : endsStar v = false) : (mkTag v texts).noStar = true := by
+theorem mkTag_noStar (v : Str) (texts : List Str) (h : markerTest false v = false) : (mkTag v texts).noStar = true := by
   unfold mkTag; split <;> simp [Item.noStar, h]
 
 theorem groupItems_noStar (cur : Option (Bool × Str × List Str)) (toks : List PTok) (items : List Item)
     (hg : groupItems cur toks = some items) (ht : ∀ p ∈ toks, parserWraps p = false)
-    (hc : ∀ b v acc, cur = some (b, v, acc) → endsStar v = false) : ∀ i ∈ items, i.noStar = true := by
+    (hc : ∀ b v acc, cur = some (b, v, acc) → markerTest b v = false) : ∀ i ∈ items, i.noStar = true := by
   induction toks generalizing cur items with
   | nil =>
     cases cur with
@@ -370,30 +379,38 @@ theorem groupItems_noStar (cur : Option (Bool × Str × List Str)) (toks : List 
             refine ih _ items hg hps ?_
             intro b v' acc h'
             simp only [Option.some.injEq, Prod.mk.injEq] at h'
-            obtain ⟨_, rfl, _⟩ := h'
+            obtain ⟨rfl, rfl, _⟩ := h'
             simp only [parserWraps, hty] at hp
-            simpa [endsStar] using hp
+            simpa [markerTest] using hp
           · split at hg
             · rename_i hty
               refine ih _ items hg hps ?_
               intro b v' acc h'
               simp only [Option.some.injEq, Prod.mk.injEq] at h'
-              obtain ⟨_, rfl, _⟩ := h'
+              obtain ⟨rfl, rfl, _⟩ := h'
               simp only [parserWraps, hty] at hp
-              simpa [endsStar] using hp
+              simpa [markerTest] using hp
             · simp at hg
       | some c =>
         obtain ⟨isVar, bv, acc⟩ := c
-        have hbv : endsStar bv = false := hc isVar bv acc rfl
+        have hbv : markerTest isVar bv = false := hc isVar bv acc rfl
         simp only [groupItems] at hg
         split at hg
-        · obtain ⟨rest, hr, rfl⟩ := consItem_some hg
+        · rename_i hcond
+          have hiv : isVar = true := by
+            simp only [Bool.and_eq_true] at hcond; exact hcond.1
+          subst hiv
+          obtain ⟨rest, hr, rfl⟩ := consItem_some hg
           intro i hi
           rcases List.mem_cons.1 hi with rfl | hi
           · simp [Item.noStar, hbv]
           · exact ih none rest hr hps (by intro b v acc h; cases h) i hi
         · split at hg
-          · obtain ⟨rest, hr, rfl⟩ := consItem_some hg
+          · rename_i hcond
+            have hiv : isVar = false := by
+              simp only [Bool.and_eq_true, Bool.not_eq_true'] at hcond; exact hcond.1
+            subst hiv
+            obtain ⟨rest, hr, rfl⟩ := consItem_some hg
             intro i hi
             rcases List.mem_cons.1 hi with rfl | hi
             · exact mkTag_noStar bv _ hbv
@@ -401,17 +418,18 @@ theorem groupItems_noStar (cur : Option (Bool × Str × List Str)) (toks : List 
           · refine ih _ items hg hps ?_
             intro b v' acc' h'
             simp only [Option.some.injEq, Prod.mk.injEq] at h'
-            obtain ⟨_, rfl, _⟩ := h'
+            obtain ⟨rfl, rfl, _⟩ := h'
             exact hbv
 
 
 
-theorem wrapStmt_noStar {v : Str} (n : Node) (h : endsStar v = false) : wrapStmt v n = n := by
-  simp [wrapStmt, h]
+theorem wrapStmt_noStar {bo : Str → Option (List Str × Str)} {v : Str} (n : Node) (h : markerTest false v = false) :
+    wrapStmt (repaired bo) v n = n := by
+  simp [wrapStmt, repaired, h]
 
-theorem subparse_wrapperFree (st : Stmts) (fuel : Nat) (ends : List Str) (items : List Item)
+theorem subparse_wrapperFree (bo : Str → Option (List Str × Str)) (fuel : Nat) (ends : List Str) (items : List Item)
     (h : ∀ i ∈ items, i.noStar = true) :
-    ∀ ns e r, subparse st fuel ends items = .ok (ns, e, r) → wrapperFreeL ns = true ∧ ∀ i ∈ r, i.noStar = true := by
+    ∀ ns e r, subparse (repaired bo) fuel ends items = .ok (ns, e, r) → wrapperFreeL ns = true ∧ ∀ i ∈ r, i.noStar = true := by
   induction fuel generalizing ends items with
   | zero => intro ns e r hs; simp [subparse] at hs
   | succ fuel ih =>
@@ -433,8 +451,8 @@ theorem subparse_wrapperFree (st : Stmts) (fuel : Nat) (ends : List Str) (items 
       · simp at hs
     | .var v ex :: is, h =>
       have his : ∀ i ∈ is, i.noStar = true := fun i hi => h i (by simp [hi])
-      have hv : endsStar v = false := by simpa [Item.noStar] using h (.var v ex) (by simp)
-      simp only [subparse, hv, Bool.false_eq_true, if_false] at hs
+      have hv : markerTest true v = false := by simpa [Item.noStar] using h (.var v ex) (by simp)
+      simp only [subparse, repaired, hv, Bool.false_eq_true, if_false] at hs
       split at hs
       · rename_i ns' e' r' hrec
         simp only [Except.ok.injEq, Prod.mk.injEq] at hs
@@ -444,7 +462,7 @@ theorem subparse_wrapperFree (st : Stmts) (fuel : Nat) (ends : List Str) (items 
       · simp at hs
     | .tag v name arg :: is, h =>
       have his : ∀ i ∈ is, i.noStar = true := fun i hi => h i (by simp [hi])
-      have hv : endsStar v = false := by simpa [Item.noStar] using h (.tag v name arg) (by simp)
+      have hv : markerTest false v = false := by simpa [Item.noStar] using h (.tag v name arg) (by simp)
       simp only [subparse] at hs
       split at hs
       · simp only [Except.ok.injEq, Prod.mk.injEq] at hs
@@ -490,13 +508,13 @@ theorem subparse_wrapperFree (st : Stmts) (fuel : Nat) (ends : List Str) (items 
                   exact ⟨by simp [wrapperFreeL, Node.wrapperFree, h1, hb1, ha1], h2⟩
                 · simp at hs
 
-theorem parseItems_wrapperFree (st : Stmts) (items : List Item) (h : ∀ i ∈ items, i.noStar = true) (ns : List Node)
-    (hp : parseItems st items = .ok ns) : wrapperFreeL ns = true := by
+theorem parseItems_wrapperFree (bo : Str → Option (List Str × Str)) (items : List Item) (h : ∀ i ∈ items, i.noStar = true)
+    (ns : List Node) (hp : parseItems (repaired bo) items = .ok ns) : wrapperFreeL ns = true := by
   unfold parseItems at hp
   split at hp
   · rename_i ns' e r hs
     simp only [Except.ok.injEq] at hp; subst hp
-    exact (subparse_wrapperFree st _ [] items h ns' e r hs).1
+    exact (subparse_wrapperFree bo _ [] items h ns' e r hs).1
   · simp at hp
 
 end NunavutVerif.Lexer
